@@ -626,7 +626,10 @@ class C20(Prop):
         try:
             cdir = dirs.get_config_dir(APP)
             if not os.path.realpath(cdir).startswith(real + os.sep):
-                raise RuntimeError(f"config dir {cdir} is not under the private XDG_CONFIG_HOME {tmp}")
+                # the directory in force is not the one the library uses: nothing is run there (it is not ours to write
+                # to); the user's file in the directory in force would be ignored - reported by the oracle
+                d_, u_ = _parses(case)
+                return {"wrong_dir": [cdir, tmp], "loads": [], "files": [None], "only_file": [], "d": d_, "u": u_, "file_tree": None}
             path = os.path.join(cdir, APP + ".toml")
             if case["user"] is not None:
                 with open(path, "wb") as f:
@@ -704,6 +707,8 @@ class C20(Prop):
     def same(self, case, io, mo):
         if case["k"] != "load":
             return io == mo
+        if "wrong_dir" in io:
+            return False
         # key order of a tomlkit document after item assignment is tomlkit's business (it keeps plain values before
         # tables, moves a key whose kind changed, ...) and no part of the property: load results are compared as
         # unordered trees; `_merge`'s own key order is compared on plain dicts (merge cases)
@@ -744,6 +749,9 @@ class C20(Prop):
             if not out["b_unchanged"]:
                 return "_merge changed its second argument"
             return None
+        if "wrong_dir" in out:
+            return (f"the configuration directory in force is {out['wrong_dir'][1]} (XDG_CONFIG_HOME) but the library uses "
+                    f"{out['wrong_dir'][0]}: the user's file in the directory in force is not read")
         d, u = out["d"], out["u"]
         loads, files = out["loads"], out["files"]
         if d is None:
